@@ -53,6 +53,7 @@ CLAIMS.update({
     'C07': dict(text='Deposit model: recipients {valid, malformed, blocked module account} x amounts {0,2} x hook payloads {none, undecodable, badly signed, well signed ok / failing / '
                      'failing at message 2 / panicking handler / signer without funds} x hook gas {ample, below signature cost, zero} x injected error or panic in MintCoins / '
                      'SendCoinsFromModuleToAccount: Outcome (credited xor exactly one refund withdrawal under the next L2 sequence), HookContained (only the signer sequence is consumed) and '
+                     'exact hook gas accounting (handler with the hook minus the same deposit with a payload that fails before running: at most HookMaxGas); hook messages are bank sends, the signer\'s own withdrawals and deposits delivered from inside the hook, run by the same Step function on a branch; '
                      'DepositNeverStalls hold; each case runs on the real keeper with real signed hook transactions and a fault-injecting bank keeper wrapper.' + E3,
                 note=COMMON_NOTE + ' The hook gas bound is observed by measuring the gas the hook consumed on the real keeper (hookGasOK in the response), not by modelling gas costs.'),
     'C09': dict(text='Withdrawals of bridged / native / unknown denoms for amounts 0, within and beyond balance, interleaved with credited and refunded deposits and a deposit naming another '
@@ -77,7 +78,7 @@ CLAIMS.update({
                      'every vote list is built with real ed25519 keys and signatures and submitted through the real MsgUpdateOracle.', note=COMMON_NOTE + ' The connect oracle keeper, vote aggregator and codecs are the real ones and trusted.'),
     'C16': dict(text='A genesis round trip (export -> JSON -> ValidateGenesis -> InitGenesis on a fresh instance -> second export compared) is an event in the L1 ledger, L2 deposit and '
                      'validator-set models, offered in every reachable state; the walk CONTINUES on the re-imported chain, so every later message and query of the model is answered by the '
-                     're-imported chain and compared with the specification, and the L2 import feeds InitGenesis updates to a fresh CometBFT set.' + E3, note=COMMON_NOTE),
+                     're-imported chain and compared with the specification (where the round trip leaves the abstract state unchanged, every event enabled in that state is executed once more on the re-imported chain), and the L2 import feeds InitGenesis updates to a fresh CometBFT set.' + E3, note=COMMON_NOTE),
     'C17': dict(text='Formats.tla defines leaf, node, root-from-proof, output root, L2 denom and escrow address as a term algebra and the tree / proof rule; TLC emits one term per operator and '
                      'structural case (node: <,=,>,adjacent; proofs of length 0..6; trees of 1..9 leaves x every position); a generic evaluator that knows only be64/str/cat/sha3/sha256/hex '
                      'fills the holes with seeded full-range values and the bytes are compared with the chain functions and with pinned vectors; SliceMem.tla models slice headers and append, '
